@@ -106,8 +106,11 @@ def derivative_case(draw, full_output=None, n_min=0, complex_f=True):
         else:
             wrap = dict(kind='expi')
     fo = draw(st.booleans()) if full_output is None else full_output
+    shape = None
+    if npts == 6:
+        shape = draw(st.sampled_from([None, [2, 3], [3, 2], [1, 6], [2, 1, 3]]))
     return dict(tree=tree, x=x, scalar=(npts == 1 and draw(st.booleans())), method=method, n=n,
-                order=order, step=draw(step_spec(method)), wrap=wrap, full_output=fo)
+                order=order, step=draw(step_spec(method)), wrap=wrap, full_output=fo, shape=shape)
 
 
 # --------------------------------------------------------------------------------------
@@ -220,6 +223,8 @@ def evaluate(case, ctx, need_info=False):
         raise Skip('jet oracle undefined at x')
     f = exprs.np_function_wrapped(tree, wrap) if wrap else exprs.np_function(tree)
     x_arr = np.asarray(xlist[0]) if case.get('scalar') else np.asarray(xlist)
+    if case.get('shape'):
+        x_arr = x_arr.reshape(case['shape'])
     w = stencil_width(method, n)
     rho_min = min(a.rho_cert for a in ans)
     ev = Evaluated()
